@@ -200,6 +200,9 @@ INS_CELLS = [
     ("ins-edge-peaked-logit-maf", "G2e", {"flow_config": {"ftype": "maf"}, "max_iteration": 8}, None),
     ("ins-prior-without-bounds-check-noreparam", "G2k", {"reparameterisation": None, "max_iteration": 8}, None),
     ("ins-prior-without-bounds-check-logit-resume", "G2k", {}, [2]),
+    # likelihood with plateaus (many exactly tied values): batches tie with stored samples and with the threshold
+    ("ins-ties", "Tie2", {"max_iteration": 8}, None),
+    ("ins-ties-strict-resume", "Tie2", {"strict_threshold": True, "max_iteration": 8, "save_log_q": True}, [2]),
     ("ins-gw5", "GW5", {"nlive": 400, "min_samples": 100, "max_iteration": 8}, None),
     # no i.i.d. set, and the kept part of the live set falls below the training floor (cap below the floor / fixed update index)
     ("ins-no-iid-max-samples-below-floor", "G2u", {"draw_iid_live": False, "min_samples": 150, "max_samples": 300}, None),
